@@ -674,7 +674,7 @@ def rule_zero_prune(rep, F):
 def check(rep, F, tier, replay=None):
     cddl = common.load_table("conway_cddl.json")
     aud = common.load_table("e2_audited.json")
-    inv = Inventory(F)
+    inv = Inventory(F, thorough=(tier == "thorough"))
     inv.analyse_all()
     rule_spec_map(rep, F, inv, cddl)
     rule_spec_array(rep, F, inv, cddl)
